@@ -5,6 +5,7 @@ import (
 	"crypto/x509"
 	"fmt"
 	"net"
+	"strings"
 	"sync"
 	"time"
 
@@ -44,6 +45,18 @@ var (
 // startDir starts a fresh directory (never stopped before process exit unless
 // the caller does so).
 func startDir(mode string, opts ...testdirectory.Option) (h *dirHandle, err error) {
+	// the directory picks its port with listen(:0); when the machine has run out of ephemeral ports
+	// (TIME_WAIT pile-up of a long run next door) that fails: wait and retry instead of giving up
+	for attempt := 0; ; attempt++ {
+		h, err = startDirOnce(mode, opts...)
+		if err == nil || attempt >= 30 || !(strings.Contains(err.Error(), "address already in use") || strings.Contains(err.Error(), "cannot assign requested address")) {
+			return h, err
+		}
+		time.Sleep(time.Duration(200+100*attempt) * time.Millisecond)
+	}
+}
+
+func startDirOnce(mode string, opts ...testdirectory.Option) (h *dirHandle, err error) {
 	t := &labT{}
 	defer func() {
 		if r := recover(); r != nil {
